@@ -118,7 +118,8 @@ AddAllowed(s, args, p) ==
             ELSE IF MustIgnore(s.st, p) THEN {old}
             ELSE IF MustNotIgnore(s.st, p) THEN {{NewPair(s.st, p)}}
             ELSE {old, {NewPair(s.st, p)}}
-        ELSE IF p \notin DOMAIN s.st.wt /\ named /\ ~OnDiskDir(s.st, p) THEN {{}}
+        ELSE IF p \notin DOMAIN s.st.wt /\ named /\ ~OnDiskDir(s.st, p) THEN
+            (IF MustNotIgnore(s.st, p) THEN {{}} ELSE {old, {}})     \* a named path that an ignore rule may match can be skipped
         ELSE IF p \notin DOMAIN s.st.wt /\ viaGoneDir THEN {old, {}}
         ELSE {old}
 AddExact(s, t, args) ==
